@@ -28,7 +28,7 @@ RULE = ("kind q: histories of add (with re-adds)/remove/pop/peek/len over 2..40 
         "removed, a pop returned a task while another live task had the same priority, and the sorted back end held "
         ">= 2 sub-lists at some point; (b) = >= 2 sub-lists and a pop and an insert at the end. "
         "Distinct = distinct canonical case hash")
-ASSUMPTIONS = ["tasks are hashable with lawful __eq__/__hash__ (tokens mapped to pairwise unequal Python objects)",
+ASSUMPTIONS = ["tasks are hashable with lawful __eq__/__hash__ (tokens mapped to pairwise unequal Python objects; a token is passed as the identical object or as an equal copy)",
                "priorities are finite numbers or None (no NaN, nothing float() rejects); ranks r stand for r/2 and are passed as "
                "int / float / Fraction / bool / None / omitted argument",
                "default priority_key; the default given to pop/peek is any object (also a queued task, also the head) except the private _REMOVED sentinel",
@@ -37,9 +37,24 @@ TRUSTED = ["Model/C10_Model.v is hand-written; tied to boltons.queueutils / bolt
            "heapq is modelled as the algorithm of Lib/heapq.py (heappush/heappop, _siftdown/_siftup), which _heapq.c is trusted to implement; bisect.insort_right as binary search + insert",
            "harness/c10.py serialiser"]
 
+class _Collide:
+    """hashable task whose hash collides with every other _Collide (dict probing by __eq__)"""
+    def __init__(self, k):
+        self.k = k
+
+    def __hash__(self):
+        return 7
+
+    def __eq__(self, other):
+        return isinstance(other, _Collide) and other.k == self.k
+
+    def __repr__(self):
+        return "_Collide(%d)" % self.k
+
+
 # tokens -> varied hashable python objects, pairwise != (note 1 == True == 1.0: only one of them appears)
 TASKS = ["a", 7, (1, 2), 3.5, "b", frozenset([7]), -1, "task", (), 17, "z", b"y", 99, ("t", None), 0, "", (0,), 2.25,
-         frozenset(), "A", None]
+         frozenset(), "A", None, _Collide(1), _Collide(2), 10 ** 20, "long task name"]
 FACTORS_Q = [1, 1, 1, 2, 2, 3, 0, 1520]
 
 
@@ -51,6 +66,26 @@ def task(tok):
     if tok not in _TASK_OBJ:
         _TASK_OBJ[tok] = TASKS[tok] if tok < len(TASKS) else ("tk", tok)
     return _TASK_OBJ[tok]
+
+
+def task_copy(tok):
+    """an object EQUAL to task(tok) but, where the type allows, not identical to it (a queue must go by ==/hash)"""
+    o = task(tok)
+    if isinstance(o, tuple):
+        return tuple(list(o))
+    if isinstance(o, str):
+        return (o + "x")[:-1]
+    if isinstance(o, bytes):
+        return bytes(bytearray(o))
+    if isinstance(o, float):
+        return float(repr(o))
+    if isinstance(o, frozenset):
+        return frozenset(list(o))
+    if isinstance(o, _Collide):
+        return _Collide(o.k)
+    if isinstance(o, int) and not isinstance(o, bool):
+        return int(str(o))
+    return o
 
 
 def default_obj(d):
@@ -89,7 +124,7 @@ def prio_obj(rank, rep):
 # --------------------------------------------------------------------------
 def _gen_q(rng, tier):
     long = tier != "quick"
-    ntasks = rng.choice([2, 3, 4, 6, 8, 12, 20, 40])
+    ntasks = rng.choice([2, 3, 4, 6, 8, 12, 25, 40])
     nprio = rng.choice([1, 2, 2, 3, 3, 5, 12])
     factor = rng.choice(FACTORS_Q)
     nops = rng.randint(1, rng.choice([12, 40, 70] if not long else [40, 120, 220]))
@@ -121,9 +156,9 @@ def _gen_q(rng, tier):
                 # every new entry sorts after all others: insort inserts at len()
                 ops.append(["add", j % 400 if ntasks > 8 else rng.randrange(ntasks), -(j // rng.choice([1, 1, 2, 3])), rng.randrange(6)])
             else:
-                ops.append(["add", rng.randrange(ntasks), rank(), rng.randrange(6)])
+                ops.append(["add", rng.randrange(ntasks), rank(), rng.randrange(6), int(rng.random() < 0.3)])
         elif r < w[1]:
-            ops.append(["remove", rng.randrange(ntasks)])
+            ops.append(["remove", rng.randrange(ntasks), int(rng.random() < 0.3)])
             best.pop(ops[-1][1], None)
         elif r < w[3]:
             # the live task of highest rank added so far is probably at the head (generation-side guess only)
@@ -358,16 +393,17 @@ def _run_queue(cls, case, inv):
         try:
             if op[0] == "add":
                 p = prio_obj(op[2], op[3])
+                t = task_copy(op[1]) if len(op) > 4 and op[4] else task(op[1])
                 if op[2] is None and op[3] % 2:
-                    r = q.add(task(op[1]))
+                    r = q.add(t)
                 elif op[3] == 5:
-                    r = q.add(task(op[1]), priority=p)
+                    r = q.add(t, priority=p)
                 else:
-                    r = q.add(task(op[1]), p)
+                    r = q.add(t, p)
                 assert r is None, r
                 out.append(["none"])
             elif op[0] == "remove":
-                r = q.remove(task(op[1]))
+                r = q.remove(task_copy(op[1]) if len(op) > 2 and op[2] else task(op[1]))
                 assert r is None, r
                 out.append(["none"])
             elif op[0] in ("pop", "peek"):
